@@ -38,13 +38,21 @@ type Step struct {
 	Plain bool     `json:"plain,omitempty"`
 	Code  int      `json:"code,omitempty"`
 	Msg   int      `json:"msg,omitempty"`
+	// metadata steps: after the call returned the handler modifies the map it passed in place (Mut: 1
+	// write into a value slice, 2 add or replace a key, 3 append to a value, 4 all three); Reuse: the
+	// handler passes the very map object of its previous metadata step again (MD = its contents now)
+	Mut   int  `json:"mut,omitempty"`
+	Reuse bool `json:"reuse,omitempty"`
 }
 
 type Scenario struct {
 	Shape     string `json:"shape"` // unary unaryAsStream serverStream clientStream bidi
 	Req       int    `json:"req"`
 	PreCancel bool   `json:"precancel,omitempty"`
-	Steps     []Step `json:"steps"`
+	// the client modifies, in place, the maps Header()/Trailer() gave it and the outgoing metadata it
+	// attached to its context once the call has started
+	CMut  bool   `json:"cmut,omitempty"`
+	Steps []Step `json:"steps"`
 }
 
 func serverStreams(shape string) bool { return shape == "serverStream" || shape == "bidi" }
@@ -128,10 +136,63 @@ func canon(err error, streamRecv, ss bool) Outcome {
 const nKeys = 3
 
 func keyName(k int) string { return "hk" + strconv.Itoa(k) }
-func mkMD(p [][2]int) metadata.MD {
-	if p == nil {
-		return nil
+// mutateMD modifies a metadata map in place the way a caller that keeps using "its" map would
+func mutateMD(md metadata.MD, kind int) {
+	if md == nil || kind == 0 {
+		return
 	}
+	present, absent := "", ""
+	for k := nKeys - 1; k >= 0; k-- {
+		if len(md[keyName(k)]) > 0 {
+			present = keyName(k)
+		} else {
+			absent = keyName(k)
+		}
+	}
+	add := func() {
+		if absent != "" {
+			md[absent] = []string{"91"}
+		} else {
+			md[keyName(0)] = []string{"91"}
+		}
+	}
+	switch kind {
+	case 1:
+		if present != "" {
+			md[present][0] = "90"
+		} else {
+			add()
+		}
+	case 2:
+		add()
+	case 3:
+		if present != "" {
+			md[present] = append(md[present], "92")
+		} else {
+			add()
+		}
+	default:
+		if present != "" {
+			md[present][0] = "90"
+			md[present] = append(md[present], "92")
+		}
+		add()
+	}
+}
+
+func sameMD(a, b [][2]int) bool {
+	if len(a) != len(b) {
+		return false
+	}
+	for i := range a {
+		if a[i] != b[i] {
+			return false
+		}
+	}
+	return true
+}
+
+func mkMD(p [][2]int) metadata.MD {
 	md := metadata.MD{}
 	for _, kv := range p {
 		md.Append(keyName(kv[0]), strconv.Itoa(kv[1]))
@@ -253,8 +314,14 @@ type callCtl struct {
 	exited  chan struct{}
 	auto    bool // no script: return the context's error on entry
 
-	mu       sync.Mutex
-	received []held          // messages the server received, with the value seen on receipt
+	lastMD metadata.MD // the map object of the handler's latest metadata step
+
+	mu            sync.Mutex
+	harnessBug    string
+	incoming      []string // request metadata under outKey as the handler sees it when it returns
+	incomingExtra bool
+	incomingSeen  bool
+	received      []held // messages the server received, with the value seen on receipt
 	sent     []proto.Message // messages the server sent (scribbled over at the end)
 }
 
@@ -266,6 +333,8 @@ type scriptSrv struct {
 }
 
 const callIDKey = "c13-call-id"
+const outKey = "c13-out"       // a request metadata key whose value the client overwrites after the call started
+const outKeyLate = "c13-late"  // a key the client adds after the call started
 
 func (s *scriptSrv) set(id string, c *callCtl) {
 	s.mu.Lock()
@@ -334,13 +403,28 @@ func (c *callCtl) interp(o sops) Step {
 			c.sent = append(c.sent, m)
 			c.mu.Unlock()
 			c.res <- Obs{K: "sent", Ok: err == nil}
-		case "seth":
-			c.res <- Obs{K: "seth", Ok: o.setH(cmd.md) == nil}
-		case "sendh":
-			c.res <- Obs{K: "sendh", Ok: o.sendH(cmd.md) == nil}
-		case "sett":
-			o.setT(cmd.md)
-			c.res <- Obs{K: "sett", Ok: true}
+		case "seth", "sendh", "sett":
+			md := cmd.md
+			if cmd.step.Reuse && c.lastMD != nil {
+				md = c.lastMD
+				if !sameMD(userMD(md), userMD(cmd.md)) {
+					c.mu.Lock()
+					c.harnessBug = fmt.Sprintf("reused map holds %v, scenario says %v", userMD(md), userMD(cmd.md))
+					c.mu.Unlock()
+				}
+			}
+			ok := true
+			switch cmd.k {
+			case "seth":
+				ok = o.setH(md) == nil
+			case "sendh":
+				ok = o.sendH(md) == nil
+			default:
+				o.setT(md)
+			}
+			c.lastMD = md
+			mutateMD(md, cmd.step.Mut)
+			c.res <- Obs{K: cmd.k, Ok: ok}
 		case "waitdone":
 			select {
 			case <-o.ctx.Done():
@@ -349,6 +433,12 @@ func (c *callCtl) interp(o sops) Step {
 				c.res <- Obs{K: "done", Ok: false}
 			}
 		case "ret":
+			in, _ := metadata.FromIncomingContext(o.ctx)
+			c.mu.Lock()
+			c.incoming = append([]string{}, in.Get(outKey)...)
+			c.incomingExtra = len(in.Get(outKeyLate)) > 0
+			c.incomingSeen = true
+			c.mu.Unlock()
 			return cmd.step
 		}
 	}
@@ -464,6 +554,7 @@ type client struct {
 	received []held
 	sent     []proto.Message
 	mu       sync.Mutex
+	cmut     bool
 }
 
 func methodOf(shape string) (string, *grpc.StreamDesc) {
@@ -536,8 +627,15 @@ func (c *client) loop() {
 		case "header":
 			md, _ := c.stream.Header()
 			c.res <- Obs{K: "hdr", MD: userMD(md)}
+			if c.cmut {
+				mutateMD(md, 4)
+			}
 		case "trailer":
-			c.res <- Obs{K: "trl", MD: userMD(c.stream.Trailer())}
+			md := c.stream.Trailer()
+			c.res <- Obs{K: "trl", MD: userMD(md)}
+			if c.cmut {
+				mutateMD(md, 4)
+			}
 		}
 	}
 }
@@ -628,13 +726,14 @@ var callSeq int64
 func runScenario(sc Scenario, srv *scriptSrv, cc grpc.ClientConnInterface) (tr Transcript) {
 	callSeq++
 	id := strconv.FormatInt(callSeq, 10)
-	ctx, cancel := context.WithCancel(metadata.AppendToOutgoingContext(context.Background(), callIDKey, id))
+	outMD := metadata.Pairs(callIDKey, id, outKey, "5")
+	ctx, cancel := context.WithCancel(metadata.NewOutgoingContext(context.Background(), outMD))
 	defer cancel()
 	defer srv.drop(id)
 	ctl := &callCtl{shape: sc.Shape, cmd: make(chan srvCmd), res: make(chan Obs, 4), entered: make(chan Obs, 1),
 		exited: make(chan struct{}), auto: sc.PreCancel}
 	srv.set(id, ctl)
-	cl := &client{shape: sc.Shape, cc: cc, ctx: ctx, cmd: make(chan cliCmd, 8), res: make(chan Obs, 8)}
+	cl := &client{shape: sc.Shape, cc: cc, ctx: ctx, cmd: make(chan cliCmd, 8), res: make(chan Obs, 8), cmut: sc.CMut}
 	go cl.loop()
 	d := &driver{sc: sc, srv: srv, ctl: ctl, cl: cl, cancel: cancel}
 	defer func() {
@@ -698,6 +797,12 @@ func runScenario(sc Scenario, srv *scriptSrv, cc grpc.ClientConnInterface) (tr T
 		}
 	}
 
+	if sc.CMut {
+		// the call has started: the client goes on using "its" metadata map
+		outMD[outKey][0] = "66"
+		outMD[outKeyLate] = []string{"1"}
+	}
+
 	// ---- steps ----
 	for _, st := range sc.Steps {
 		if d.stuck {
@@ -721,15 +826,15 @@ func runScenario(sc Scenario, srv *scriptSrv, cc grpc.ClientConnInterface) (tr T
 				pendingRecv = false
 			}
 		case "SetH":
-			if d.startS(srvCmd{k: "seth", md: mkMD(st.MD)}) {
+			if d.startS(srvCmd{k: "seth", md: mkMD(st.MD), step: st}) {
 				d.waitS()
 			}
 		case "SendH":
-			if d.startS(srvCmd{k: "sendh", md: mkMD(st.MD)}) {
+			if d.startS(srvCmd{k: "sendh", md: mkMD(st.MD), step: st}) {
 				d.waitS()
 			}
 		case "SetT":
-			if d.startS(srvCmd{k: "sett", md: mkMD(st.MD)}) {
+			if d.startS(srvCmd{k: "sett", md: mkMD(st.MD), step: st}) {
 				d.waitS()
 			}
 		case "CloseSend":
@@ -815,8 +920,12 @@ func runScenario(sc Scenario, srv *scriptSrv, cc grpc.ClientConnInterface) (tr T
 	}
 	if !unary {
 		d.epilogue()
+		if sc.CMut {
+			d.rereadMetadata()
+		}
 	}
 	d.checkIsolation()
+	d.checkIncoming()
 	return
 }
 
@@ -825,6 +934,43 @@ func (d *driver) finishClient() {
 		if _, ok := d.waitC(); !ok {
 			return
 		}
+	}
+}
+
+// the maps handed out by Header() and Trailer() were modified by the client (cmut): reading again
+// must give what was read before
+func (d *driver) rereadMetadata() {
+	n := len(d.tr.Client)
+	if n < 2 {
+		return
+	}
+	h0, t0 := d.tr.Client[n-2].MD, d.tr.Client[n-1].MD
+	d.epilogue()
+	if len(d.tr.Client) != n+2 {
+		return
+	}
+	h1, t1 := d.tr.Client[n].MD, d.tr.Client[n+1].MD
+	d.tr.Client = d.tr.Client[:n]
+	if !sameMD(h0, h1) {
+		d.note("aliasing: Header() gave %v, and %v after the client modified the map it had been given", h0, h1)
+	}
+	if !sameMD(t0, t1) {
+		d.note("aliasing: Trailer() gave %v, and %v after the client modified the map it had been given", t0, t1)
+	}
+}
+
+// the request metadata the handler sees must be what the client attached when the call started
+func (d *driver) checkIncoming() {
+	d.ctl.mu.Lock()
+	defer d.ctl.mu.Unlock()
+	if d.ctl.harnessBug != "" {
+		d.note("harness: %s", d.ctl.harnessBug)
+	}
+	if !d.ctl.incomingSeen {
+		return
+	}
+	if len(d.ctl.incoming) != 1 || d.ctl.incoming[0] != "5" || d.ctl.incomingExtra {
+		d.note("aliasing: the handler's incoming metadata shows %v (late key: %v) after the client modified its outgoing metadata map; sent was [5]", d.ctl.incoming, d.ctl.incomingExtra)
 	}
 }
 
